@@ -514,6 +514,16 @@ def r9_chunk_partition(ctx):
                key="C12-R9|table-wrap", definite=True)
 
 
+
+def _round7_groups(ctx):
+    from .. import memo
+    from ..idioms import check_endpoint_samples
+    from .round7 import ragged_changes_symmetric
+    ragged_changes_symmetric(ctx, "C12-R10")
+    mods = [m for m in ["bionumpy.streams.groupby_func", "bionumpy.streams.left_join", "bionumpy.streams.multistream", "bionumpy.streams.reductions", "bionumpy.streams.stream", "bionumpy.streams.chunk_entries", "bionumpy.genomic_data.genome_context", "bionumpy.genomic_data.genome_context_base"] if m in ctx.index.modules]
+    ctx.count("dict-cache stores examined", memo.check_dict_caches(ctx, mods, rule_prefix="C12-R10"))
+    check_endpoint_samples(ctx, mods, "C12-R10")
+
 RULES = [
     ("C12-R1", r1_pending_group),
     ("C12-R2", r2_every_contig_gets_a_buffer),
@@ -526,4 +536,5 @@ RULES = [
     ("C12-T2", _small_edits),
     ("C12-R8", _group_join),
     ("C12-R9", r9_chunk_partition),
+    ("C12-R10", _round7_groups),
 ]
